@@ -238,5 +238,75 @@ pub fn op_fresh(a: &[&str]) -> String {
             Err(_) => return "P".into(),
         }
     }
+    // a duplicated process image (fork, snapshot restore): randomness buffered in user space would be handed out twice.
+    // The child makes two calls and sends what they produced through a pipe; the parent makes two calls of its own.
+    // Repeated at six consecutive positions of this thread's call history, so that every fill level of a buffer is met.
+    for _phase in 0..6 {
+        match forked_samples(&what_s, &args_s) {
+            Some(child) => {
+                let av: Vec<&str> = args_s.iter().map(|x| x.as_str()).collect();
+                match sample(&what_s, &av, false) { Ok(f) => samples.push(f), Err(e) => return e }
+                samples.extend(child);
+            }
+            None => return "fork-failed".into(),
+        }
+    }
     check(samples)
+}
+
+extern "C" {
+    fn fork() -> i32;
+    fn pipe(fds: *mut i32) -> i32;
+    fn read(fd: i32, buf: *mut u8, n: usize) -> isize;
+    fn write(fd: i32, buf: *const u8, n: usize) -> isize;
+    fn close(fd: i32) -> i32;
+    fn waitpid(pid: i32, status: *mut i32, options: i32) -> i32;
+    fn _exit(code: i32) -> !;
+}
+
+/// two samples made by a forked copy of this process (encoded as `name=hex;…` lines)
+fn forked_samples(what: &str, args: &[String]) -> Option<Vec<Vec<(String, Vec<u8>)>>> {
+    let mut fds = [0i32; 2];
+    if unsafe { pipe(fds.as_mut_ptr()) } != 0 { return None; }
+    let pid = unsafe { fork() };
+    if pid < 0 { return None; }
+    if pid == 0 {
+        // child
+        let av: Vec<&str> = args.iter().map(|x| x.as_str()).collect();
+        let mut text = String::new();
+        for _ in 0..1 {
+            if let Ok(f) = sample(what, &av, false) {
+                text.push_str(&f.iter().map(|(n, v)| format!("{}={}", n, hex(v))).collect::<Vec<_>>().join(";"));
+            }
+            text.push('\n');
+        }
+        let b = text.as_bytes();
+        let mut off = 0;
+        while off < b.len() {
+            let n = unsafe { write(fds[1], b.as_ptr().add(off), b.len() - off) };
+            if n <= 0 { break; }
+            off += n as usize;
+        }
+        unsafe { close(fds[1]); _exit(0) }
+    }
+    unsafe { close(fds[1]); }
+    let mut data = vec![];
+    let mut buf = [0u8; 65536];
+    loop {
+        let n = unsafe { read(fds[0], buf.as_mut_ptr(), buf.len()) };
+        if n <= 0 { break; }
+        data.extend_from_slice(&buf[..n as usize]);
+    }
+    unsafe { close(fds[0]); }
+    let mut st = 0i32;
+    unsafe { waitpid(pid, &mut st, 0); }
+    let text = String::from_utf8(data).ok()?;
+    let mut out = vec![];
+    for line in text.lines() {
+        if line.is_empty() { continue; }
+        let fields: Vec<(String, Vec<u8>)> = line.split(';').filter_map(|kv| { let (k, v) = kv.split_once('=')?; Some((k.to_string(), unhex(v)?)) }).collect();
+        out.push(fields);
+    }
+    if out.is_empty() { return None; }
+    Some(out)
 }
